@@ -447,7 +447,7 @@ impl GroupConfig {
                 Overreplicated(self.rf_over())
             },
             root_paths: if self.isolate {
-                self.input_paths().collect()
+                self.canonical_input_paths()
             } else {
                 vec![]
             },
@@ -521,6 +521,20 @@ impl GroupConfig {
                     .map(move |p| base_dir.resolve(p)),
             )
         }
+    }
+
+    /// Returns the absolute input paths in the canonical form used by the directory walk
+    /// for the files found under them: without `.` and `..` components and with symbolic links
+    /// to directories resolved. Needed to tell which input path a reported file belongs to.
+    pub fn canonical_input_paths(&self) -> Vec<Path> {
+        self.input_paths()
+            .map(|p| match (p.parent(), p.file_name()) {
+                (Some(parent), Some(name)) if p.to_path_buf().is_file() => {
+                    Arc::new(parent.canonicalize()).join(Path::from(name))
+                }
+                _ => p.canonicalize(),
+            })
+            .collect()
     }
 
     fn build_transform(&self, command: &str) -> io::Result<Transform> {
